@@ -373,6 +373,23 @@ def run_rules(mir, res):
                             fs_.add(m_.group(1))
             read[tr] = sorted(fs_)
         ok_t = all(read[tr] == all_fields for tr in read)
+        # the two orders agree: PartialOrd and Ord are derived together, or the hand-written pair delegates one to the other
+        ho, hp = "std::cmp::Ord" in hand, "std::cmp::PartialOrd" in hand
+        order_split = None
+        if ho != hp and "std::cmp::Ord" in impls_t and "std::cmp::PartialOrd" in impls_t:
+            order_split = "Ord is %s while PartialOrd is %s" % ("hand-written" if ho else "derived", "hand-written" if hp else "derived")
+        elif ho and hp:
+            deleg = False
+            for fn in mir.fns.values():
+                if fn.impl and fn.impl.get("key") in (impls_t["std::cmp::PartialOrd"]["key"], impls_t["std::cmp::Ord"]["key"]):
+                    rr = canon_(fn)
+                    if re.search(r"(Ord|PartialOrd)[@\w]*::(cmp|partial_cmp)\(param1, param2\)", rr):
+                        deleg = True
+            if not deleg:
+                order_split = "hand-written Ord and PartialOrd do not delegate one to the other"
+        if order_split:
+            res.oblige("element type %s: one order" % T, False)
+            res.violate(ELEM, "element|%s|order-split" % T, res_where(adt_t), "`%s` is stored in the ordered set but %s: the set sorts with one order (`<`) and searches with the other (`cmp`), so members are reported absent and re-inserted" % (T.rsplit("::", 1)[-1], order_split))
         res.inst(ELEM, "element|" + T, res_where(adt_t), True, "comparison impls %s; hand-written: %s reading %s; fields %s" % (sorted(x.rsplit("::", 1)[-1] for x in impls_t), [h.rsplit("::", 1)[-1] for h in hand], read, all_fields))
         res.oblige("element type %s: order and equality agree" % T, ok_t)
         if not ok_t:
@@ -386,6 +403,11 @@ def run_rules(mir, res):
     n_ins = sum(1 for v in classified.values() if v == "insert")
     res.floor("bulk writers verified", n_bulk, 1)
     res.floor("single-element writers verified", n_ins, 1)
+
+
+def canon_(fn):
+    from ..mir import canon
+    return canon(Exprs(fn).local(0))
 
 
 def res_where(adt):
